@@ -478,4 +478,71 @@ theorem getMsg_normMsg {s s' : Schema} {f : Nat} (hl : s.lookup f = some (false,
     | msg fs => simp [omitted, Val.isDefault, Val.isPacked, Val.norm]
     | packed ns => by_cases hb : ns = [] <;> simp [omitted, Val.isDefault, Val.isPacked, hb, Val.norm]
 
+/-! ## the normal form stays in emission order -/
+
+theorem sortedMsg_cons_iff {s : Schema} {f : Nat} {v : Val} {t : Msg} :
+    sortedMsg s ((f, v) :: t) = true ↔
+      (match s.lookup f with | some (_, k) => v.sorted k | none => true) = true ∧
+      (match t with | [] => true | (g, _) :: _ => decide (f < g) || (decide (f = g) && isRep s f)) = true ∧
+      sortedMsg s t = true := by
+  simp only [sortedMsg, Bool.and_eq_true, and_assoc]
+  exact Iff.rfl
+
+mutual
+theorem sorted_norm : ∀ (k : Kind) (v : Val), v.sorted k = true → (v.norm k).sorted k = true
+  | .msg s, .msg fs, h => by
+    simp only [Val.sorted] at h
+    simp only [Val.norm, Val.sorted]
+    exact sortedMsg_norm s fs h
+  | .int, v, _ => by cases v <;> simp [Val.norm, Val.sorted]
+  | .bytes, v, _ => by cases v <;> simp [Val.norm, Val.sorted]
+  | .packed, v, _ => by cases v <;> simp [Val.norm, Val.sorted]
+  | .msg s, .int _, _ => by simp [Val.norm, Val.sorted]
+  | .msg s, .bytes _, _ => by simp [Val.norm, Val.sorted]
+  | .msg s, .packed _, _ => by simp [Val.norm, Val.sorted]
+theorem sortedMsg_norm (s : Schema) : ∀ (m : List (Nat × Val)), sortedMsg s m = true → sortedMsg s (normMsg s m) = true
+  | [], _ => by simp [normMsg, sortedMsg]
+  | (f, v) :: t, h => by
+    have iht := sortedMsg_norm s t (sortedMsg_tail h)
+    have hlb := sortedMsg_lb h
+    have hnext : (match normMsg s t with
+        | [] => true
+        | (g, _) :: _ => decide (f < g) || (decide (f = g) && isRep s f)) = true := by
+      cases hn : normMsg s t with
+      | nil => rfl
+      | cons q r =>
+        obtain ⟨g, w⟩ := q
+        have hmem : (g, w) ∈ normMsg s t := by rw [hn]; simp
+        obtain ⟨p, hp, e⟩ := normMsg_fields s t (g, w) hmem
+        have := hlb p hp
+        simp only at e
+        simp only [Bool.or_eq_true, Bool.and_eq_true, decide_eq_true_eq]
+        by_cases hfg : f < g
+        · exact Or.inl hfg
+        · right
+          have hge : f = g := by omega
+          refine ⟨hge, ?_⟩
+          cases hr : isRep s f with
+          | true => rfl
+          | false => have := this.2 hr; omega
+    have hv := (sortedMsg_cons_iff.mp h).1
+    cases hl : s.lookup f with
+    | none =>
+      simp only [normMsg, hl]
+      exact sortedMsg_cons_iff.mpr ⟨by simp [hl], hnext, iht⟩
+    | some rk =>
+      obtain ⟨rep, k⟩ := rk
+      by_cases hc : omitted rep v = true
+      · simp only [normMsg, hl, hc, if_true]; exact iht
+      · have hc2 : omitted rep v = false := by simpa using hc
+        simp only [normMsg, hl, hc2]
+        simp only [hl] at hv
+        exact sortedMsg_cons_iff.mpr ⟨by simp only [hl]; exact sorted_norm k v hv, hnext, iht⟩
+end
+
+/-- **the normal form of a well-formed message is well-formed** (conforming and in emission order) -/
+theorem wfMsg_norm (s : Schema) (m : Msg) (h : wfMsg s m = true) : wfMsg s (normMsg s m) = true := by
+  simp only [wfMsg, Bool.and_eq_true] at *
+  exact ⟨confMsg_norm s m h.1, sortedMsg_norm s m h.2⟩
+
 end IdenaModel.ProtoWire
